@@ -4,7 +4,7 @@ from __future__ import annotations
 
 import ast
 
-from sa.core import AnalysisError, Report, loc, norm_src
+from sa.core import AnalysisError, Report, loc, norm_src, inline_locals
 from sa.consteval import ev, NOTIMPL, NameRef
 from sa.targets_model import Target, kind_arities, known_names
 from sa.oracles import targets as O
@@ -54,10 +54,11 @@ def run(repo, tier):
     for p in enumerate_paths(mc):
         if p.exit != "return":
             continue
-        bare = [n for n in ast.walk(p.exit_node.value) if isinstance(n, ast.Attribute) and n.attr == "ref" and dotted(n.value) == like]
+        retv = inline_locals(p.exit_node.value, mc)  # the returned text with single-definition locals replaced by their definitions
+        bare = [n for n in ast.walk(retv) if isinstance(n, ast.Attribute) and n.attr == "ref" and dotted(n.value) == like]
         guarded = any(e.kind == "test" and "defined_refs" in norm_src(e.node)
                       and (e.pol if not (isinstance(e.node, ast.Compare) and isinstance(e.node.ops[0], ast.NotIn)) else not e.pol) for e in p.events)
-        via = any((call_name(c) or "").endswith("tostring") and c.args and dotted(c.args[0]) == like for c in calls_in(p.exit_node.value))
+        via = any((call_name(c) or "").endswith("tostring") and c.args and dotted(c.args[0]) == like for c in calls_in(retv))
         ok = (via or guarded) and not (bare and not guarded)
         r.ob(
             "R6.4",
@@ -196,6 +197,45 @@ def run(repo, tier):
                     continue
                 V = refv.value.id
                 cls_expr = clsv
+                zipped = None
+                if isinstance(clsv, ast.Name):
+                    # `for typ, a in zip(element_types, args)`: the class list is paired with the arguments element by element
+                    comp = getattr(js, "_parent", None)
+                    while comp is not None and not isinstance(comp, (ast.ListComp, ast.GeneratorExp)):
+                        comp = getattr(comp, "_parent", None)
+                    if comp is not None and len(comp.generators) == 1 and isinstance(comp.generators[0].target, ast.Tuple) \
+                            and isinstance(comp.generators[0].iter, ast.Call) and dotted(comp.generators[0].iter.func) == "zip":
+                        tg = [x.id if isinstance(x, ast.Name) else None for x in comp.generators[0].target.elts]
+                        za = comp.generators[0].iter.args
+                        if clsv.id in tg and V in tg and len(za) == len(tg):
+                            seq_cls, seq_v = za[tg.index(clsv.id)], za[tg.index(V)]
+                            if isinstance(seq_cls, ast.Name):
+                                d_ = [st for st in ast.walk(f) if isinstance(st, ast.Assign) and any(isinstance(t, ast.Name) and t.id == seq_cls.id for t in st.targets)]
+                                seq_cls = d_[0].value if len(d_) == 1 else seq_cls
+                            if isinstance(seq_cls, (ast.ListComp, ast.GeneratorExp)) and len(seq_cls.generators) == 1 and not seq_cls.generators[0].ifs \
+                                    and isinstance(seq_cls.generators[0].target, ast.Name) and isinstance(seq_cls.elt, ast.IfExp):
+                                zipped = (seq_cls, norm_src(seq_cls.generators[0].iter) == norm_src(seq_v))
+                if zipped is not None:
+                    seq_cls, same_iter = zipped
+                    W = seq_cls.generators[0].target.id
+                    cls_expr = seq_cls.elt
+                    n_decl += 1
+                    t = cls_expr.test
+                    neg = False
+                    if isinstance(t, ast.UnaryOp) and isinstance(t.op, ast.Not):
+                        t, neg = t.operand, True
+                    own = isinstance(t, ast.Attribute) and t.attr == "is_complex" and isinstance(t.value, ast.Name) and t.value.id == W
+                    r.ob("R6.7", "targets/stablehlo.py::Printer.tostring argument element class is the argument's own", own and same_iter,
+                         f"`{norm_src(js)}` declares `${V}.ref` with the class taken from `{norm_src(seq_cls)}`"
+                         + ("" if own else f", whose choice is not the element's own is_complex")
+                         + ("" if same_iter else ", a list over a different sequence than the arguments being declared")
+                         + ": an argument whose complexness differs is declared with the wrong element type constraint", loc(S.rel, js))
+                    a, b = ev(cls_expr.body), ev(cls_expr.orelse)
+                    if neg:
+                        a, b = b, a
+                    r.ob("R6.7", "targets/stablehlo.py::Printer.tostring element class names", (a, b) == ("ComplexElementType", "NonComplexElementType"),
+                         f"a complex argument is declared `{a}` and a real one `{b}`", loc(S.rel, cls_expr))
+                    continue
                 if isinstance(clsv, ast.Name):
                     defs = [st for st in ast.walk(f) if isinstance(st, ast.Assign) and any(isinstance(t, ast.Name) and t.id == clsv.id for t in st.targets)]
                     if len(defs) != 1:
@@ -247,16 +287,36 @@ def run(repo, tier):
     if len(like_names) != 1:
         raise AnalysisError(f"stablehlo.Printer.tostring: `value, like = expr.operands` not found ({sorted(like_names)})")
     like = next(iter(like_names))
-    for p in enumerate_paths(f, unroll=(0, 1)):
-        for i, e in enumerate(p.events):
-            if e.kind == "stmt" and isinstance(e.node, ast.Assign) and isinstance(e.node.targets[0], ast.Name):
-                v = e.node.value
+    def analyse_like(fn, like, depth=0):
+        """the statements of `fn` (and of the printer's own helper methods the like operand is handed to) that turn the like operand
+        into text: the short `$like.ref` form needs `like.ref in self.defined_refs` on its path, the printed sub-tree does not"""
+        n_here = 0
+        seen_keys = set()
+        for p in enumerate_paths(fn, unroll=(0, 1)):
+            items = [(i, e.node.value, e.node) for i, e in enumerate(p.events)
+                     if e.kind == "stmt" and isinstance(e.node, ast.Assign) and isinstance(e.node.targets[0], ast.Name)]
+            if depth > 0 and p.exit == "return" and p.exit_node is not None and p.exit_node.value is not None:
+                items.append((len(p.events), p.exit_node.value, p.exit_node))
+            for i, v, where in items:
                 short = isinstance(v, ast.JoinedStr) and any(isinstance(x, ast.Attribute) and x.attr == "ref" and dotted(x.value) == like for x in ast.walk(v)) \
                     and not any(isinstance(x, ast.Name) and x.id not in (like,) for x in ast.walk(v))
                 full = isinstance(v, ast.Call) and (call_name(v) or "").endswith("tostring") and len(v.args) >= 1 and dotted(v.args[0]) == like
+                helper = None
+                if isinstance(v, ast.Call) and isinstance(v.func, ast.Attribute) and dotted(v.func.value) == "self" and not full and depth < 2:
+                    m_ = S.method(v.func.attr)
+                    pos_ = [k for k, a in enumerate(v.args) if dotted(a) == like]
+                    kw_ = [k.arg for k in v.keywords if dotted(k.value) == like]
+                    if m_ is not None and (pos_ or kw_):
+                        pname = m_.args.args[1 + pos_[0]].arg if pos_ else kw_[0]
+                        helper = (m_, pname)
+                if helper is not None:
+                    if id(helper[0]) not in seen_keys:
+                        seen_keys.add(id(helper[0]))
+                        n_here += analyse_like(helper[0], helper[1], depth + 1)
+                    continue
                 if not (short or full):
                     continue
-                n_like += 1
+                n_here += 1
                 guard = None
                 for e2 in p.events[:i]:
                     if e2.kind == "test" and isinstance(e2.node, ast.Compare) and isinstance(e2.node.ops[0], (ast.In, ast.NotIn)) and dotted(e2.node.left) == f"{like}.ref" \
@@ -266,14 +326,14 @@ def run(repo, tier):
                     ok = guard is True
                     why = ("the like operand is printed as the bare `$like.ref` on a path that does not establish `like.ref in "
                            "self.defined_refs`: the $ref may be unbound at this point of the pattern")
-                elif full:
+                else:
                     ok = True
                     why = ""
-                else:
-                    ok = False
-                    why = f"like operand printed as `{norm_src(v)}`: neither a bound $ref nor the printed sub-tree"
-                r.ob("R6.4", "targets/stablehlo.py::Printer.tostring like operand " + ("short form" if short else "sub-tree" if full else "other"),
-                     ok, why, loc(S.rel, e.node))
+                r.ob("R6.4", "targets/stablehlo.py::Printer.tostring like operand " + ("short form" if short else "sub-tree"),
+                     ok, why, loc(S.rel, where))
+        return n_here
+
+    n_like = analyse_like(f, like)
     if n_like == 0:
         raise AnalysisError("stablehlo.Printer.tostring: no statement printing the like operand found")
     # R6.4 the text of a numeric constant is the value itself: no conversion that merges values (int(-0.0) is 0, round, abs ...)
